@@ -38,6 +38,9 @@ func (r *Run) libCall(st *State, fr *Frame, name string, recv Val, args []Val, s
 	st.Counters["calls:"+name] = App(SInt, "+", r.counter(st, "calls:"+name), IntLit(1))
 	r.atCall(st, fr, name, args, sig, in)
 	ret := func(vs ...Val) []*State {
+		for i, v := range vs {
+			st.Ghost[fmt.Sprintf("ires:%s:%d", name, i)] = v // ilast("pkg.Func", i)
+		}
 		r.setResult(st, fr, dst, vs)
 		r.afterCall(st, fr, name, args, vs, sig, in)
 		return nil
